@@ -166,6 +166,20 @@ def check_ee(psf, c, case):
     xi_i, yi_i = psf.encircled_energy(img.astype(np.int64), eeDiameter=False, **kw)
     if not np.allclose(np.asarray(yi_i, float), yi, rtol=0, atol=1e-12):
         bad.append(("encircled_energy:integer-image", dict(got=np.asarray(yi_i, float).tolist())))
+    # the centre may come as a list or as a float64 array (e.g. what a centroider returned): same curve, and the array is the caller's
+    for mk in (list, lambda t: np.array(t, dtype=float)):
+        cen = mk(centre)
+        keep_c = np.array(cen, dtype=float, copy=True)
+        x2, y2 = psf.encircled_energy(img.copy(), eeDiameter=False, center=cen)
+        d2 = psf.encircled_energy(img.copy(), fraction=0.5, center=cen)
+        if not default:
+            same = np.allclose(np.asarray(y2, float), yi, rtol=0, atol=1e-12) and abs(d2 - psf.encircled_energy(img.copy(), fraction=0.5, center=centre)) <= 1e-12
+        else:
+            same = np.allclose(np.asarray(y2, float), yi, rtol=0, atol=1e-12)
+        if not same or not np.array_equal(np.asarray(cen, float), keep_c):
+            bad.append(("encircled_energy:centre-given-as-%s" % ("array" if isinstance(cen, np.ndarray) else "list"),
+                        dict(centre_modified=bool(not np.array_equal(np.asarray(cen, float), keep_c)), got=np.asarray(y2, float).tolist()[:8])))
+            break
     counts = np.array([a for a, b in c["nodes"]], float)
     sums = np.array([b for a, b in c["nodes"]], float)
     rad = np.append(0, np.sqrt(counts * 4 / np.pi))
